@@ -1,4 +1,4 @@
-//! Rewrite rules R0..R16 (DESIGN.md 2.1). Every rule is a syn visitor that emits text edits; a rule is
+//! Rewrite rules R0..R17 (DESIGN.md 2.1). Every rule is a syn visitor that emits text edits; a rule is
 //! re-run on the re-parsed text until it finds nothing more, so nested occurrences are handled.
 
 use crate::{apply_edits, br, nr, txt, Ctx, Edit};
@@ -23,6 +23,7 @@ pub fn run_all(text: &str, ctx: &Ctx, log: &mut BTreeMap<&'static str, usize>) -
         ("R13", r13),
         ("R16", r16),
         ("R15", r15),
+        ("R17", r17),
         ("R5", r5),
         ("R4", r4),
         ("R1", r1),
@@ -373,6 +374,40 @@ struct R4<'a> {
 fn is_continue(e: &Expr) -> bool {
     matches!(e, Expr::Continue(c) if c.label.is_none())
 }
+impl<'a> R4<'a> {
+    /// `b` is in tail position of a loop body: nothing of the iteration runs after it
+    fn tail_block(&mut self, b: &syn::Block) -> bool {
+        let stmts = &b.stmts;
+        let n = stmts.len();
+        for (i, st) in stmts.iter().enumerate() {
+            if let Stmt::Expr(Expr::If(ifx), _) = st {
+                let only_continue = ifx.else_branch.is_none()
+                    && ifx.then_branch.stmts.len() == 1
+                    && matches!(&ifx.then_branch.stmts[0], Stmt::Expr(e, _) if is_continue(e));
+                if only_continue {
+                    let (s, e) = nr(st);
+                    let cond = txt(self.src, &*ifx.cond);
+                    let close = br(b.brace_token.span.close()).0;
+                    if i + 1 < n {
+                        self.edits.push(Edit { start: s, end: e, text: format!("if !({}) {{", cond), rule: "R4" });
+                        self.edits.push(Edit { start: close, end: close, text: "}".into(), rule: "R4" });
+                    } else {
+                        self.edits.push(Edit { start: s, end: e, text: String::new(), rule: "R4" });
+                    }
+                    return true;
+                }
+            }
+        }
+        if n > 0 {
+            if let Stmt::Expr(Expr::If(ifx), _) = &stmts[n - 1] {
+                if ifx.else_branch.is_none() {
+                    return self.tail_block(&ifx.then_branch);
+                }
+            }
+        }
+        false
+    }
+}
 impl<'a, 'ast> Visit<'ast> for R4<'a> {
     fn visit_expr_for_loop(&mut self, fl: &'ast syn::ExprForLoop) {
         let stmts = &fl.body.stmts;
@@ -388,27 +423,9 @@ impl<'a, 'ast> Visit<'ast> for R4<'a> {
                 }
             }
         }
-        // (b) `if C { continue; } REST`  ->  `if !(C) { REST }`
-        if self.edits.is_empty() {
-            for (i, st) in stmts.iter().enumerate() {
-                if let Stmt::Expr(Expr::If(ifx), _) = st {
-                    let only_continue = ifx.else_branch.is_none()
-                        && ifx.then_branch.stmts.len() == 1
-                        && matches!(&ifx.then_branch.stmts[0], Stmt::Expr(e, _) if is_continue(e));
-                    if only_continue {
-                        let (s, e) = nr(st);
-                        let cond = txt(self.src, &*ifx.cond);
-                        let close = br(fl.body.brace_token.span.close()).0;
-                        if i + 1 < n {
-                            self.edits.push(Edit { start: s, end: e, text: format!("if !({}) {{", cond), rule: "R4" });
-                            self.edits.push(Edit { start: close, end: close, text: "}".into(), rule: "R4" });
-                        } else {
-                            self.edits.push(Edit { start: s, end: e, text: String::new(), rule: "R4" });
-                        }
-                        return; // one per pass; the text is re-parsed
-                    }
-                }
-            }
+        // (b) `if C { continue; } REST`  ->  `if !(C) { REST }`   (also inside a block that ends the loop body)
+        if self.edits.is_empty() && self.tail_block(&fl.body) {
+            return; // one per pass; the text is re-parsed
         }
         visit::visit_expr_for_loop(self, fl);
     }
@@ -1190,9 +1207,14 @@ struct R15<'a> {
 }
 impl<'a> R15<'a> {
     fn gen(&self, source: &Source, stages: &[Stage], term: &Term, hint: Option<&str>) -> Option<String> {
+        let to_set = match term {
+            Term::Collect(tf) => tf.clone().or(hint.map(|h| h.replace(' ', ""))).map(|t| t.starts_with("HashSet<")).unwrap_or(false),
+            _ => false,
+        };
         let needs = stages.iter().any(|s| matches!(s, Stage::Filter(_) | Stage::FilterMap(_)))
             || matches!(term, Term::Fold(..) | Term::Max)
-            || matches!(source, Source::Range(..));
+            || matches!(source, Source::Range(..))
+            || to_set; // vstd has no specification of `FromIterator for HashSet`
         if !needs {
             return None;
         }
@@ -1305,4 +1327,45 @@ impl<'a, 'ast> Visit<'ast> for R15<'a> {
 }
 fn r15(src: &str, f: &syn::File, _c: &Ctx, e: &mut Vec<Edit>) {
     R15 { src, edits: e, hint: None }.visit_file(f);
+}
+
+// ---------------------------------------------------------------------------------------------- R17
+// `let N = F(&<collect() chain or block>);`  ->  `let N = { let arg_ = <...>; F(&arg_) };`
+// the temporary that is passed by reference gets a name (so that a proof can speak about it); it is dropped at the end of
+// the initialiser either way, and F's result cannot borrow from it (it would not outlive the statement in the original).
+struct R17<'a> {
+    src: &'a str,
+    edits: &'a mut Vec<Edit>,
+}
+impl<'a, 'ast> Visit<'ast> for R17<'a> {
+    fn visit_local(&mut self, l: &'ast syn::Local) {
+        if let Some(init) = &l.init {
+            if let Expr::Call(call) = &*init.expr {
+                for a in call.args.iter() {
+                    if let Expr::Reference(r) = a {
+                        if r.mutability.is_none() {
+                            let is_tmp = match &*r.expr {
+                                Expr::MethodCall(m) => m.method == "collect",
+                                Expr::Block(_) => true,
+                                _ => false,
+                            };
+                            if is_tmp {
+                                let (cs, ce) = nr(call);
+                                let (as_, ae) = nr(&*r.expr);
+                                let before = &self.src[cs..as_];
+                                let after = &self.src[ae..ce];
+                                let text = format!("{{ let arg_ = {}; {}arg_{} }}", txt(self.src, &*r.expr), before, after);
+                                self.edits.push(Edit { start: cs, end: ce, text, rule: "R17" });
+                                return;
+                            }
+                        }
+                    }
+                }
+            }
+        }
+        visit::visit_local(self, l);
+    }
+}
+fn r17(src: &str, f: &syn::File, _c: &Ctx, e: &mut Vec<Edit>) {
+    R17 { src, edits: e }.visit_file(f);
 }
